@@ -292,6 +292,9 @@ def run_config(exp, seed, workdir):
                                 raise Div("C14", "synthetic.target_mean", 0, c1["tm"])
                             if ci == 0 and (not rc["digitize"] or not inst["tone"]):
                                 rows_ = c1["x"].shape[0]
+                                if rows_ == 0:
+                                    raise Div("C14|C02|C20", "empty_subblock", "a sub-block of at least one window",
+                                              {"subblock_call": k // 2, "rows": 0})
                                 n0 = ((k // 2) // cfg["nsub"]) * T + ((k // 2) % cfg["nsub"]) * inst["sub_rows"]
                                 if rc["digitize"]:
                                     want_syn = np.zeros((rows_, inst["nch"]))
